@@ -282,7 +282,7 @@ Theorem wsgi_framing_refuted_before_fix :
 Proof.
   exists {| i_head := false; i_status := SLine [50; 48; 52; 32; 78; 111]; i_text := Some [97];
             i_data := None; i_media := None; i_stream := None; i_sse := None; i_clen := None;
-            i_ctype := None; i_wrapper := false; i_cached := false |}.
+            i_ctype := None; i_wrapper := false; i_cached := false; i_disconnect := None; i_media_fails := false; i_recovery := rc0 |}.
   eexists. repeat split; try (vm_compute; reflexivity). vm_compute. discriminate.
 Qed.
 
@@ -293,7 +293,7 @@ Theorem typeless_no_ctype_refuted :
 Proof.
   exists {| i_head := false; i_status := SInt 204; i_text := None; i_data := None;
             i_media := Some [123; 125]; i_stream := None; i_sse := None; i_clen := None;
-            i_ctype := None; i_wrapper := false; i_cached := false |}.
+            i_ctype := None; i_wrapper := false; i_cached := false; i_disconnect := None; i_media_fails := false; i_recovery := rc0 |}.
   eexists. repeat split; try (vm_compute; reflexivity). vm_compute. discriminate.
 Qed.
 
@@ -524,7 +524,7 @@ Proof.
       rewrite (typeless_bodiless_codes _ E) in Hbc. discriminate. }
     pose proof Hbl as Hbl'.
     assert (Htl' : is_typeless i = false) by (rewrite Htl; exact Ht).
-    destruct (i_sse i) as [evs|] eqn:Hsse.
+    destruct (sse_effective i) as [evs|] eqn:Hsse.
     + (* server-sent events *)
       match type of He with
       | (let '(acc, r) := send_all (?s :: ?l ++ ?x) _ _ in _) = _ =>
@@ -754,4 +754,48 @@ Proof.
   intros Hwf Htm He. unfold asgi_emit_f in He.
   destruct (close_once_asgi i _ o Hwf Htm He) as [C E].
   repeat split; auto. exact (asgi_framing i _ o Hwf Htm He).
+Qed.
+
+(* ------------------------------------------------------------------ rendering failure + recovery *)
+
+(* after a body-rendering failure the framing clauses hold for what the error handler put
+   into the response (in particular Content-Length = bytes of THAT body) *)
+Theorem wsgi_framing_recovery i st :
+  status_wf (i_status (effective i)) = true -> wsgi_stream_ok (effective i) = true ->
+  typeless_media (effective i) = false ->
+  wsgi_emit_r true i = Some st -> oracle_wsgi (effective i) (wobs_of st) = [].
+Proof. unfold wsgi_emit_r. apply wsgi_framing. Qed.
+
+Theorem asgi_framing_recovery i fa o :
+  status_wf (i_status (effective i)) = true -> typeless_media (effective i) = false ->
+  asgi_emit_r i fa = Some o -> oracle_asgi (effective i) o = [].
+Proof. unfold asgi_emit_r. apply asgi_framing. Qed.
+
+(* the recovered response never streams: the stream of the failed response is not touched *)
+Theorem recovery_ignores_stream i : render_fails i = true -> i_stream (effective i) = None.
+Proof. unfold effective. intros ->. reflexivity. Qed.
+
+(* SSE and client disconnect: the emitter is abandoned after the event during which the
+   disconnect was seen, and the terminating body event (more_body = False) is still sent:
+   the event sequence is complete *)
+Theorem sse_disconnect_terminated i evs k o :
+  status_wf (i_status i) = true -> typeless_media i = false -> is_bodiless i = false ->
+  i_sse i = Some evs -> i_disconnect i = Some k ->
+  asgi_emit i None = Some o ->
+  ao_raised o = false /\
+  exists h, ao_events o = AStart (code_of i) h
+                          :: map (fun e => ABody e true) (firstn (Nat.max 1 k) evs) ++ [ABody [] false].
+Proof.
+  intros Hwf Htm Hbl Hs Hk He.
+  destruct (status_defined _ Hwf) as (line & code & _ & Hc & _ & Hpos & _).
+  unfold asgi_emit in He. rewrite Hc in He.
+  assert (Hcode : code_of i = code) by (unfold code_of; rewrite Hc; reflexivity).
+  change ((0 <=? code)%Z && mem_N (Z.to_N code) asgi_bodiless) with (in_codes code spec_bodiless) in He.
+  unfold is_bodiless in Hbl. rewrite Hcode in Hbl. rewrite Hbl in He.
+  unfold sse_effective in He. rewrite Hs, Hk in He.
+  cbn [send_all send_ok] in He.
+  assert (Hall : forall l' n, send_all l' None n = (l', false)).
+  { induction l' as [|e l' IH]; intro n; simpl; [reflexivity|]. rewrite IH. reflexivity. }
+  rewrite Hall in He. injection He as <-. cbn [ao_raised ao_events]. rewrite Hcode.
+  split; [reflexivity|]. eexists. reflexivity.
 Qed.
